@@ -113,7 +113,9 @@ pub fn handle(op: &str, req: &Value) -> Option<Value> {
                 let _ = tx.send(());
                 r
             });
-            let _ = rx.recv_timeout(Duration::from_millis(300));
+            // inside a list window the other thread may block on the list's lock (then the window closes after 300 ms); after
+            // create_edge's endpoint checks nothing is held, so the other thread is simply waited for
+            let _ = rx.recv_timeout(Duration::from_millis(if at_checks { 20_000 } else { 300 }));
             *slot.lock().unwrap() = Some(h);
         }));
     }
